@@ -38,6 +38,9 @@ POP = [
     {"op": "role_create", "email": "alice@other.org"},
     {"op": "role_create", "email": "old@example.com"},
     {"op": "c17_role_disable", "email": "old@example.com"},
+    # twins: a user whose address, read as a SQL LIKE pattern, matches a role address
+    {"op": "c17_user_create", "name": "support_team", "domain": "example.com"},
+    {"op": "role_create", "email": "support-team@example.com"},
 ]
 
 # recipient classes: (tag, RCPT argument, intended address or None when the RFC shape does not apply)
@@ -57,6 +60,19 @@ def rcpt_classes(fresh):
         ("odd_empty_local", "TO:<@example.com>", "@example.com"),
         ("odd_case", "TO:<Alice@Example.COM>", "Alice@Example.COM"),
         ("odd_space", "TO:<al ice@example.com>", "al ice@example.com"),
+        # "_" / "%" twins (SQL LIKE wildcards) and case twins of role addresses and of users: the property says
+        # "the store of exactly that address", every lookup on the delivery path is an exact match
+        ("like_role_existing_user", "TO:<support_team@example.com>", "support_team@example.com"),
+        ("like_role_underscore", "TO:<suppor_@example.com>", "suppor_@example.com"),
+        ("like_role_percent", "TO:<%@example.com>", "%@example.com"),
+        ("like_role_percent_prefix", "TO:<s%@example.com>", "s%@example.com"),
+        ("like_user_underscore", "TO:<al_ce@example.com>", "al_ce@example.com"),
+        ("like_user_percent", "TO:<%@other.org>", "%@other.org"),
+        ("like_user_domain", "TO:<carol@other_org>", "carol@other_org"),
+        ("case_role_local", "TO:<SUPPORT@example.com>", "SUPPORT@example.com"),
+        ("case_role_domain", "TO:<support@EXAMPLE.COM>", "support@EXAMPLE.COM"),
+        ("case_user_local", "TO:<ALICE@example.com>", "ALICE@example.com"),
+        ("case_user_domain", "TO:<alice@EXAMPLE.com>", "alice@EXAMPLE.com"),
         ("odd_bare", "TO:alice@example.com", None),
         ("odd_double_bracket", "TO:<<alice@example.com>>", None),
         ("odd_not_to", "FOR:<alice@example.com>", None),
@@ -330,7 +346,7 @@ COQ_POLICY_DEFS = r"""
 From Raven Require Import Base.Enum Model.Policy Spec.Policy.
 Local Open Scope Z_scope.
 Record pcase := mkCase { c_cfg : config; c_db : db; c_lines : list str; c_intended : option (list str);
-  c_msg : message; o_rcpt : list bool; o_flags : list bool; o_gains : list (store * str); o_users : list user }.
+  c_msg : message; o_rcpt : list bool; o_flags : list bool; o_gains : list (store * str); o_users : list user; o_nreplies : nat }.
 Definition gain_eqb (a b : store * str) := store_eqb (fst a) (fst b) && str_eqb (snd a) (snd b).
 Definition count_g (g : store * str) (l : list (store * str)) := length (filter (gain_eqb g) l).
 Definition same_gains (a b : list (store * str)) :=
@@ -345,7 +361,8 @@ Definition model_ok (c : pcase) : bool :=
   let os := txn_outcomes t in
   list_eqb Bool.eqb (map rcpt_ok (to_rcpt t)) (o_rcpt c) && consistent os &&
   list_eqb Bool.eqb (flags_of os) (o_flags c) && same_gains (gains_of os) (o_gains c) &&
-  list_eqb user_eqb (users (do_db (to_data t))) (o_users c).
+  list_eqb user_eqb (users (do_db (to_data t))) (o_users c) &&
+  Nat.eqb (reply_count (do_reply (to_data t))) (o_nreplies c).
 Definition spec_ok_on (c : pcase) (addrs : list str) : bool :=
   let os := map erase (fst (spec_txn (c_cfg c) (c_db c) addrs (c_msg c))) in
   list_eqb Bool.eqb (flags_of os) (o_flags c) && same_gains (gains_of os) (o_gains c).
@@ -381,9 +398,10 @@ def coq_case(cell, before, ob):
     gains = C.coq_list(["(%s, %s)" % (coq_store(g[0]), C.coq_str(C.unlatin(g[1]))) for g in ob["gains"]])
     users = C.coq_list(["(mkUser %s %s %s)" % (C.coq_str(C.unlatin(n)), C.coq_str(C.unlatin(d)), C.coq_bool(bool(en)))
                         for (n, d, en, _) in ob["users"]])
-    return "(mkCase %s %s %s %s %s %s %s %s %s)" % (
+    return "(mkCase %s %s %s %s %s %s %s %s %s %d)" % (
         coq_cfg(cell["cfg"]), coq_db(before), lines, intended, coq_msg(cell),
-        C.coq_list([C.coq_bool(x) for x in ob["rcpt"]]), C.coq_list([C.coq_bool(x) for x in ob["flags"]]), gains, users)
+        C.coq_list([C.coq_bool(x) for x in ob["rcpt"]]), C.coq_list([C.coq_bool(x) for x in ob["flags"]]), gains, users,
+        len(ob["replies"]))
 
 
 def parse_nat_list(log, name):
@@ -769,7 +787,7 @@ def run(chk):
                        "run in Coq on the database view observed before the cell, and with the documented policy). "
                        "Configuration product: default_folder{INBOX,Archive,Spam} x allowed_domains{empty,match,no-match} x "
                        "reject_unknown_user x max_recipients{1,2,100} x max_size{len-1,len,big} x quota{off,under,over,=size,=size-1} "
-                       "(810; quick: seeded sample, thorough: all) x 19 recipient classes x 19 spam-header variants (rotating), "
+                       "(810; quick: seeded sample, thorough: all) x 30 recipient classes (incl. '_'/'%'/case twins of role addresses and users) x 19 spam-header variants (rotating), "
                        "plus multi-recipient transactions; direct-call suites for parseRcptTo, address splitting, isSpamByHeaders, "
                        "ParseMessage header map, config.Validate")
     chk.cov["cells_accepting"] = sum(1 for f in flat if any(f[2]["flags"]))
